@@ -361,23 +361,24 @@ def nauty(rep):
     ch = sep = None
     bdefs = local_defs(bl.node)
     full_ret = returns_of(bl.node)
-    fm = pmatch("$ns + $$sep + $es", full_ret[-1].value) if full_ret else None
+    fm = pmatch("$$ns + $$sep + $$es", full_ret[-1].value) if full_ret else None
     if fm:
         sep_node = full_ret[-1].value.left.right
         if isinstance(sep_node, ast.Constant) and isinstance(sep_node.value, str) and sep_node.value:
             sep = sep_node.value[0]
-        nseg = origin(bdefs, ast.Name(id=fm["ns"], ctx=ast.Load()))
+        nseg = origin(bdefs, full_ret[-1].value.left.left)
     else:
         nseg = None
     if rets:
-        rm = pmatch("$ns + $suf", rets[-1].value)
+        rm = pmatch("$$ns + $$suf", rets[-1].value)
         if rm and nseg is not None:
             shape = True
-            pseg = origin(pdefs, ast.Name(id=rm["ns"], ctx=ast.Load()))
+            rv_ = rets[-1].value
+            pseg = origin(pdefs, rv_.left)
             # same construction as the full label's node segment, over the prefix instead of the whole permutation
             pat = f"'|'.join((':'.join((str(self._freeze({pb.params[1]}.nodes[$v].get($a, ''))) for $a in self.node_attrs)) for $v in {pre}))"
             same = pmatch(pat, pseg) is not None
-            suf = origin(pdefs, ast.Name(id=rm["suf"], ctx=ast.Load()))
+            suf = origin(pdefs, rv_.right)
             if isinstance(suf, ast.BinOp) and isinstance(suf.op, ast.Mult) and isinstance(suf.left, ast.Constant) and isinstance(suf.left.value, str) and len(suf.left.value) == 1:
                 ch = suf.left.value
     # a non-final node segment is followed by '|' (inside the join) — the prefix' segment is followed by '|' or by the first char of sep
